@@ -118,6 +118,12 @@ class Engine:
             self.by_vendor.setdefault(s["vendor"], []).append(i)
         self.vendors = sorted(self.by_vendor)
         self.base = os.environ.get("VERIF_SCRATCH") or tempfile.gettempdir()
+        # compile the shipped rulebooks once, in the engine process: run children are forked from it
+        from annet import rulebook
+        from annet.annlib.netdev.views.hardware import HardwareView
+        for vendor in self.vendors:
+            for m in MODELS.get(vendor) or [env.HW_STUB[vendor]]:
+                rulebook.get_rulebook(HardwareView(m, None))
 
     # ------------------------------------------------------------------ world states
     def _state(self, ch, vendor):
